@@ -248,8 +248,10 @@ def unit_setattr(kind0):
             if ok and kind in ('linelist', 'portlist'):
                 v = u[0][1]
                 items = ex.list_items(p, v) if isinstance(v, VList) else None
+                same = zand(*[(it.t == z3.String('e%d' % i_)) if isinstance(it, VStr) else B(False) for i_, it in enumerate(items)]) \
+                    if items is not None and len(items) == 2 else B(False)
                 ctx.oblige('post.list_assignment_is_tracked_with_its_elements', p,
-                           B(items is not None and len(items) == 2 and ('g', 'tracked', v.lid) in p.heap),
+                           zand(B(items is not None and len(items) == 2 and ('g', 'tracked', v.lid) in p.heap), same),
                            clause='including mutating list-valued options in place (the assigned list is a tracked list)')
                 if items is not None and ('g', 'tracked', v.lid) in p.heap:
                     who = p.heap[('g', 'tracked', v.lid)]
